@@ -90,11 +90,17 @@ func (o *OracleC04) AfterBlock(c *Chain, b *BlockCtx) []*Violation {
 			class = "dispute-escrow-short:backer-moved-stake-since-report"
 		}
 		out = append(out, o.v(b.H, "dispute-account", class, "dispute account holds %s but owes at least %s (%s)", bal, liab, detail))
+		diag := ""
 		if i := strings.IndexByte(class, ':'); i > 0 {
+			diag = class[i+1:]
+		} else if class == "short-by-unbond-truncation-units" {
+			diag = class
+		}
+		if diag != "" {
 			if c.Facts == nil {
 				c.Facts = map[string]string{}
 			}
-			c.Facts["dispute-escrow-short"] = class[i+1:] // claims failing for funds later in this run are its consequences
+			c.Facts["dispute-escrow-short"] = diag // claims failing for funds later in this run are its consequences
 		}
 	}
 	if liab.Sign() > 0 {
@@ -102,9 +108,7 @@ func (o *OracleC04) AfterBlock(c *Chain, b *BlockCtx) []*Violation {
 	}
 
 	// entitlement probes (side-effect free, on a cache context)
-	if c.Facts["dispute-escrow-short"] != "" {
-		o.count("probes_skipped_after_known_escrow_shortfall")
-	} else if len(out) == 0 && (b.H%5 == 0 || len(b.Txs) > 1) {
+	if len(out) == 0 && (b.H%5 == 0 || len(b.Txs) > 1) {
 		out = append(out, o.probes(c, b, v)...)
 	}
 	return out
@@ -176,6 +180,12 @@ func (o *OracleC04) probes(c *Chain, b *BlockCtx, v *View) []*Violation {
 				break
 			}
 		}
+	}
+	if c.Facts["dispute-escrow-short"] != "" {
+		// an open finding left the dispute escrow short earlier in this run: claims on it failing for funds are its
+		// consequences and carry no further information
+		o.count("dispute_probes_skipped_after_known_escrow_shortfall")
+		return out
 	}
 	dms := disputekeeper.NewMsgServerImpl(app.DisputeKeeper)
 	disp := map[uint64]DisputeInfo{}
@@ -295,6 +305,16 @@ func (o *OracleC04) probes(c *Chain, b *BlockCtx, v *View) []*Violation {
 				site, class = "dispute-account", "dispute-escrow-short:report-already-slashed-by-earlier-dispute"
 			} else if backerMovedStake(c, v) {
 				site, class = "dispute-account", "dispute-escrow-short:backer-moved-stake-since-report"
+			}
+			if site == "dispute-account" {
+				if c.Facts == nil {
+					c.Facts = map[string]string{}
+				}
+				d := class
+				if i := strings.IndexByte(class, ':'); i > 0 {
+					d = class[i+1:]
+				}
+				c.Facts["dispute-escrow-short"] = d
 			}
 			out = append(out, o.v(b.H, site, class, "after every party claimed everything the chain lets it claim (each claim tried three times), the dispute account holds %s but still owes at least %s (%s)", bal, liab, detail))
 		}
